@@ -79,8 +79,33 @@ def check(combos, constants, strategy, split, flat, spelling):
     return probs
 
 
+def consecutive_sweeps():
+    """several sweeps in one process over grids whose values are equal as numbers but differ in type (1, 1.0, True): each sweep calls the
+    function with exactly its own values and puts every result in its own slot, whatever was swept before"""
+    calls = []
+
+    def f(n, x, tag):
+        calls.append((n, x))
+        return f"{tag}:{n!r}:{x!r}"
+    grids = [(("n", [1, 0, 2]), ("x", [10, 20])), (("n", [1.0, 0.0, 2.0]), ("x", [10, 20])), (("n", [True, False, 2]), ("x", [10.0, 20.0])), (("n", [1, 0, 2]), ("x", [10, 20]))]
+    for k, combos in enumerate(grids):
+        for opts in ({}, {"shuffle": 5}):
+            del calls[:]
+            with quiet():
+                got = xyz.combo_runner(f, combos, constants={"tag": f"run{k}"}, verbosity=0, **opts)
+            want = tuple(tuple(f"run{k}:{n!r}:{x!r}" for x in combos[1][1]) for n in combos[0][1])
+            if got != want:
+                return [f"sweep {k} over {dict(combos)} {opts}: result {got!r}, expected {want!r}"], dict(sweeps=[dict(g) for g in grids[:k + 1]], options=opts)
+            if sorted(map(repr, calls)) != sorted(repr((n, x)) for n in combos[0][1] for x in combos[1][1]):
+                return [f"sweep {k} over {dict(combos)} {opts}: the function was called with {calls}"], dict(sweeps=[dict(g) for g in grids[:k + 1]], options=opts)
+    return None, None
+
+
 POOL = [1, 2.5, "x", 7, "y", 0.5, 3, "z", 11, 4.25]
-tried = 0
+tried = 1
+pr, inp = consecutive_sweeps()
+if pr:
+    finish(True, input=inp, observed=pr, tried=tried)
 strategies = ["seq", ("shuffle", True), ("shuffle", 2), ("shuffle", 7), "threads", "mp-threads"]
 for nargs in (1, 2, 3, 4):
     for rep in range(4):
